@@ -274,14 +274,14 @@ PAN = M + "/pkg/panos.VerifPAN"
 PROPS["C03"] = {
     "explanation": "Bounded symbolic execution (gosx) of the real panos.diffConfig -> sortMembers, rulesPairFrom, markObjects, genUniqRuleNames, genUniqGroupNames, diffRules (myers.Diff with (rulesPair).Equal, objectsTypeEq, servicesEq), equalize, hasEqualizedLists/Groups, findGroupOnDevice, adaptGroups, transferNeededObjects, removeUnneededObjects, printXMLValue/printXML (executed; xml.Marshal is the stub) on panVsys structures with solver-chosen rule actions, source lists and address-group members; the emitted XML-API commands (set, edit, delete, move) are executed on a model of the candidate configuration; the resulting rulebase must equal the target's rule by rule in order with sources compared by expanded content; second compare silent; no change only for an equivalent vsys.",
     "bounds": {"quick": "1 vsys, n,m<=2 rules per side (action, source = 1 address of 3 or an address-group), 1 group name per side with 1..2 members, unused group on device, service port changed in place",
-               "thorough": "source lists of 1..2 addresses; 2 group names per side; one rule whose source list holds two address-groups (1..2 members quick, 1..3 thorough)"},
+               "thorough": "source lists of 1..2 addresses; 2 group names per side; one rule whose source list holds two address-groups (1..2 members; the run with 1..3 members ended in an engine / native divergence, i.e. inconclusive, and is not registered)"},
     "outside": "several vsys, destination/service variation, service-groups, nested groups, unknown extra XML attributes, shared objects, IPv6/raw merge (C18), sizes above the bounds, XML text level (encoding/xml is stubbed: native codec for concrete values, blob tokens for symbolic ones), HTTP layer",
     "selftest": "pan-os", "selftest_thorough": "pan-os",
     "runs": [
         {"entry": PAN, "quick": {"N": "2", "G": "1", "srcmax": "1"}, "thorough": {"N": "2", "G": "1", "srcmax": "2"}, "extra": {"maxpaths": 5000000},
          "covers": ["rule moved", "changes emitted", "no change reported"]},
         {"entry": PAN, "quick": {"N": "1", "G": "1", "srcmax": "2"}, "thorough": {"N": "2", "G": "2", "srcmax": "1"}, "extra": {"maxpaths": 5000000}},
-        {"entry": PAN, "quick": {"N": "1", "G": "2", "members": "2", "srcmax": "1", "glist": "1"}, "thorough": {"N": "1", "G": "2", "members": "3", "srcmax": "1", "glist": "1"}, "extra": {"maxpaths": 5000000},
+        {"entry": PAN, "quick": {"N": "1", "G": "2", "members": "2", "srcmax": "1", "glist": "1"}, "thorough": {"N": "1", "G": "2", "members": "2", "srcmax": "1", "glist": "1"}, "extra": {"maxpaths": 5000000},
          "covers": ["source list with two address-groups"]},
         {"entry": PAN, "quick": {"N": "2", "G": "2", "members": "2", "srcmax": "1", "onlygroups": "1", "oneaction": "1"}, "thorough": {"N": "2", "G": "2", "members": "2", "srcmax": "1", "onlygroups": "1"}, "extra": {"maxpaths": 5000000}},
     ],
@@ -291,7 +291,7 @@ for _p in ("C07", "C08"):
         {"entry": PAN, "quick": {"N": "2", "G": "1", "srcmax": "1"}, "thorough": {"N": "2", "G": "1", "srcmax": "2"}, "extra": {"maxpaths": 5000000}}]
 PROPS["C08"]["runs"] = PROPS["C08"]["runs"] + [
     {"entry": PAN, "quick": {"N": "2", "G": "2", "members": "2", "srcmax": "1", "onlygroups": "1", "oneaction": "1"}, "thorough": {"N": "2", "G": "2", "members": "2", "srcmax": "1", "onlygroups": "1"}, "extra": {"maxpaths": 5000000}},
-    {"entry": PAN, "quick": {"N": "1", "G": "2", "members": "2", "srcmax": "1", "glist": "1"}, "thorough": {"N": "1", "G": "2", "members": "3", "srcmax": "1", "glist": "1"}, "extra": {"maxpaths": 5000000}}]
+    {"entry": PAN, "quick": {"N": "1", "G": "2", "members": "2", "srcmax": "1", "glist": "1"}, "thorough": {"N": "1", "G": "2", "members": "2", "srcmax": "1", "glist": "1"}, "extra": {"maxpaths": 5000000}}]
 PROPS["C10"]["runs"] = PROPS["C10"]["runs"] + [
     {"entry": PAN, "quick": {"N": "1", "G": "1", "srcmax": "2", "cut": "1"}, "thorough": {"N": "2", "G": "1", "srcmax": "1", "cut": "1"}, "extra": {"maxpaths": 5000000}, "covers": ["resumed after cut"]}]
 PROPS["C07"]["explanation"] += " PAN-OS: every emitted command's xpath must lie below the targeted vsys."
